@@ -1,5 +1,7 @@
 """Developer aid: run a check's cases in-process (pool) and group violations."""
 import collections, importlib, json, os, sys
+for _k in ("OMP_NUM_THREADS", "OPENBLAS_NUM_THREADS", "MKL_NUM_THREADS", "NUMBA_NUM_THREADS"):
+    os.environ.setdefault(_k, "1")
 sys.path.insert(0, os.environ.get("VERIF_HOME", "/verif"))
 from vf import cli, pool
 
